@@ -27,7 +27,7 @@ pub struct Case {
 fn strat(tier: Tier) -> BoxedStrategy<Case> {
   let max = tier.pick(3000, 100_000);
   (
-    prop_oneof![1 => Just(0u32), 2 => Just(1u32), 3 => Just(2u32), 8 => 3u32..17, 3 => 17u32..65, 1 => 65u32..129],
+    prop_oneof![10 => Just(0u32), 20 => Just(1u32), 30 => Just(2u32), 80 => 3u32..17, 30 => 17u32..65, 10 => 65u32..129, 2 => 129u32..301],
     bytes(max),
     bytes(max.min(20_000)),
     1u8..7,
@@ -68,7 +68,8 @@ fn oracle(c: &Case, st: &mut Stats) -> Result<(), String> {
     1 => "t=1",
     2 => "t=2",
     3..=16 => "t=3-16",
-    _ => "t>=17",
+    17..=128 => "t=17-128",
+    _ => "t>=129",
   });
   st.class(match c.msg.len() {
     0 => "msg=empty",
